@@ -3,6 +3,16 @@ import itertools, os
 from vlib import core
 
 LEVEL = "proof"
+MANIFEST = dict(
+    cat="proof", tech="Coq proof of algorithm models (wrap-around arithmetic) + exhaustive differential correspondence with the C++",
+    text="Coq theorems (unbounded in the operands, all moduli below 2^32 resp. the documented bounds) that the transcribed helpers "
+         "_add/_subtract/_multiply/get_value/fused ops/times_minus/plus_times_equal compute exact residues, that the inverse table holds "
+         "inverses and is complete for primes; the transcription is tied to the C++ by running both on identical operation lines, "
+         "exhaustively for small primes and small prime ranges and boundary-directed beyond, over all 13 classes; the partial-inverse "
+         "specification is a decidable predicate evaluated on every answer.",
+    note="Trusted: Coq kernel, extraction+OCaml driver, the hand transcription (validated by the differential run), g++/GMP. "
+         "Not proved in Coq (kept as *_full definitions, evaluated per input): refusal of composites, extended-Euclid inverse, CRT partial inverse.",
+    ref="DESIGN.md section 4 C10")
 CORRESPONDENCE = "coq/C10_Model.v (extracted: ocaml/c10_oracle.ml) vs harness/c10_drv.cpp on identical operation lines"
 TRUSTED = [
     "Coq 8.16.1 kernel (coqc, full .vo build); vm_compute used only inside Example sanity checks",
